@@ -59,19 +59,39 @@ def shards(tier):
 
 # ------------------------------------------------------------------ entry points
 def entries_for(plan):
+    """'+again': the entry is called, the object it returned is altered by the application, and the entry is called a second time
+    on the same token - what the second call reports must again be exactly what is signed."""
     if plan["ser"] == "compact":
         if plan["b64"] is None:
-            return ["jws.deserialize_compact", "jws.extract+validate", "jws.extract+extract-other+validate", "rfc7797.deserialize_compact", "jwt.decode"]
-        return ["rfc7797.deserialize_compact", "rfc7797.deserialize_compact+payload", "rfc7797.deserialize_compact+otherpayload"]
+            return ["jws.deserialize_compact", "jws.extract+validate", "jws.extract+extract-other+validate", "rfc7797.deserialize_compact", "jwt.decode",
+                    "jws.deserialize_compact+again", "jwt.decode+again"]
+        return ["rfc7797.deserialize_compact", "rfc7797.deserialize_compact+payload", "rfc7797.deserialize_compact+otherpayload", "rfc7797.deserialize_compact+payload+again"]
     if plan["b64"] is None:
-        return ["jws.deserialize_json", "rfc7797.deserialize_json"]
-    return ["rfc7797.deserialize_json"]
+        return ["jws.deserialize_json", "rfc7797.deserialize_json", "jws.deserialize_json+again"]
+    return ["rfc7797.deserialize_json", "rfc7797.deserialize_json+again"]
+
+
+def _taint(o):
+    """What an application may do with the object it was handed: edit its header dicts and claims."""
+    for d in ([getattr(o, "protected", None), getattr(o, "header", None), getattr(o, "claims", None)] +
+              [x for m in getattr(o, "members", []) or [] for x in (m.protected, m.header)]):
+        if isinstance(d, dict):
+            d["x-taint"] = "tainted"
 
 
 def call_entry(entry, token, keyarg, payload_arg=None, other_token=None):
     """Returns (payload_bytes_or_claims, protected_headers_list, is_claims)."""
     from joserfc import jws, jwt, rfc7797
     tok = copy.deepcopy(token)
+    if entry.endswith("+again"):
+        entry = entry[:-len("+again")]
+        kw = {"algorithms": ALL_JWS}
+        first = (jwt.decode(tok, keyarg, **kw) if entry == "jwt.decode" else
+                 jws.deserialize_compact(tok, keyarg, **kw) if entry == "jws.deserialize_compact" else
+                 rfc7797.deserialize_compact(tok, keyarg, payload=payload_arg, **kw) if entry == "rfc7797.deserialize_compact+payload" else
+                 jws.deserialize_json(tok, keyarg, **kw) if entry == "jws.deserialize_json" else rfc7797.deserialize_json(tok, keyarg, **kw))
+        _taint(first)
+        tok = copy.deepcopy(token)
     if entry == "jws.deserialize_compact":
         o = jws.deserialize_compact(tok, keyarg, algorithms=ALL_JWS)
         return o.payload, [o.protected], False
@@ -134,6 +154,8 @@ def judge(entry, token, plan, keymode, payload_arg=None, none_allowed=False, oth
         # whatever comes back must be what was signed: the token is judged with the payload that was actually handed over
         payload_arg = b"other-" + (payload_arg or b"")
     rfc7797 = entry.startswith("rfc7797")
+    if entry.endswith("+again"):
+        entry = entry[:-len("+again")]
     try:
         detached = payload_arg if entry.endswith(("+payload", "+otherpayload")) else None
         if isinstance(token, (str, bytes)):
@@ -551,7 +573,7 @@ def run_shard(ctx, spec):
             ctx.dontcare("b64=false non-utf8")
             return
         ents = entries_for(mplan)
-        fault_ents = [e for e in ents if not e.endswith("+otherpayload")]
+        fault_ents = [e for e in ents if not e.endswith(("+otherpayload", "+again"))]
         entry = fault_ents[case["entry"] % len(fault_ents)]
         if entry == "jwt.decode":
             try:
@@ -563,7 +585,7 @@ def run_shard(ctx, spec):
         label = (tuple(algs), mplan["ser"], mplan["b64"], case["minter"])
         # base token must be accepted by every applicable entry point
         for e in ents:
-            if e == "jwt.decode" and entry != "jwt.decode":
+            if e.startswith("jwt.decode") and entry != "jwt.decode":
                 continue
             if e == "rfc7797.deserialize_compact" and mplan["b64"] is False and isinstance(token, str) and ".." in token and pl:
                 continue  # detached: payload must be handed over
@@ -600,7 +622,7 @@ def run_shard(ctx, spec):
             # structural faults go through every entry point
             if fc in ("structural", "none"):
                 for e in ents:
-                    if e != entry and e != "jwt.decode":
+                    if e != entry and not e.startswith("jwt.decode") and not e.endswith("+again"):
                         r2 = run_fault(case, mplan, keymode, token, token2, fault, e)
                         ctx.case((label, e, fault), cls=f"fault:{fc}")
                         if r2 not in (None, "ok", "n/a"):
@@ -610,7 +632,7 @@ def run_shard(ctx, spec):
             for variant in (0, 1):
                 fault = {"kind": "keysub", "i": i, "variant": variant}
                 for e in ents:
-                    if e == "jwt.decode" and entry != "jwt.decode":
+                    if (e.startswith("jwt.decode") and entry != "jwt.decode") or e.endswith("+again"):
                         continue
                     r = run_fault(case, mplan, keymode, token, token2, fault, e)
                     ctx.case((label, e, fault), cls=["fault:keysub", f"outcome:{'rejected' if r is None else 'accepted'}"])
